@@ -841,6 +841,7 @@ coap_oscore_decrypt_pdu(coap_session_t *session,
   uint8_t external_aad_buffer[100];
   coap_bin_const_t external_aad;
   oscore_sender_ctx_t *snd_ctx = NULL;
+  int seq_validated = 0;
 #if COAP_CLIENT_SUPPORT
   coap_pdu_t *sent_pdu = NULL;
 #endif /* COAP_CLIENT_SUPPORT */
@@ -1035,7 +1036,8 @@ coap_oscore_decrypt_pdu(coap_session_t *session,
      * Requires in COSE object as appropriate
      *   partial_iv (as received)
      */
-    if (rcp_ctx->initial_state == 0 &&
+    seq_validated = rcp_ctx->initial_state == 0;
+    if (seq_validated &&
         !oscore_validate_sender_seq(rcp_ctx, cose)) {
       coap_log_warn("OSCORE: Replayed or old message\n");
       build_and_send_error_pdu(session,
@@ -1367,7 +1369,8 @@ coap_oscore_decrypt_pdu(coap_session_t *session,
                                NULL,
                                NULL,
                                0);
-      oscore_roll_back_seq(rcp_ctx);
+      if (seq_validated)
+        oscore_roll_back_seq(rcp_ctx);
       goto error_no_ack;
     } else {
       coap_handle_event_lkd(session->context,
